@@ -40,4 +40,42 @@ CLAIMS["C08"] = {
             "in user code) is a recorded known finding. Client code outside /repo is out of scope.",
 }
 
+CLAIMS["C13"] = {
+    "technique": "effect analysis of the operator methods (stores, mutating calls, aliases), abstract execution of the "
+                 "dictionary merge on the three key classes with polynomial values, literal evaluation of moduli against "
+                 "a curve table + Miller-Rabin, shape check of fieldinverse and the gmpy fallback",
+    "text": "Decides for the three pure-Python backends that no linear-combination operator stores into, or calls a "
+            "mutator on, an operand or an alias of its container; that addition yields S+O / S / O for keys in both / "
+            "one operand, scaling maps every coefficient c to c*k, negation is *-1 and subtraction is +(-other); that "
+            "each modulus literal equals the prime scalar-field order of the backend's curve; and that fieldinverse "
+            "inverts modulo the very binding get_modulus() returns. A per-construct verdict covers all expression "
+            "trees and assignments.",
+    "note": "Trusted: curve table, Fermat inverse for prime m. libsnark's C++ class and nobackend are out of scope. "
+            "Uninterpretable merge shapes are reported undecided.",
+}
+CLAIMS["C18"] = {
+    "technique": "wiring census + CFG dominance in the interposed hooks + finite decision table of the guard expression "
+                 "extracted from the ast + stated CPython termination-mode table",
+    "text": "Decides that there is exactly one module-level atexit.register(maybe(final)), that sys.exit and "
+            "sys.excepthook are interposed with originals kept, that the replacements record before delegating and "
+            "always delegate with their arguments, that maybe_ runs the proving step iff exitcode in {None,0} and no "
+            "exception (10-cell table, exhaustive), that final() touches only interface members or defensive "
+            "attributes, and joins the interposed hooks with a table of termination modes.",
+    "note": "Trusted: the termination-mode table (printed in the evidence). raise SystemExit(n) and builtins.exit(n) "
+            "bypass both hooks: known findings. os._exit / signals / hand-called prove() are not decided.",
+}
+CLAIMS["C19"] = {
+    "technique": "literal evaluation of the registry, role-based location of the three selection stages in the module "
+                 "ast, guard/pairing/order checks, static import-graph closure between registry modules, interface "
+                 "census (attributes accessed on the backend object, resolved by the abstract interpreter)",
+    "text": "Decides over the finite configuration space: registry rows unique and existing with nobackend last; "
+            "pre-import scan, environment stage and auto-detection in that order with the latter two guarded by "
+            "`backend is None`; name and module always taken from the same row; first hit wins; a named backend is "
+            "imported outside any try and an unknown name is reported; no registry module statically imports an "
+            "earlier row's module (else the reported name is wrong); every registry module binds every attribute the "
+            "package accesses on the backend.",
+    "note": "Three derived backends (libsnarkgg, zkifbellman, zkifbulletproofs) import their base module: known "
+            "findings. Loadability of third-party dependencies is environment, not decided.",
+}
+
 NOT_APPLICABLE = {}
